@@ -234,10 +234,21 @@ impl Node {
             process_request("unwatch-all", &dbs, client);
             client.left(&dbs);
         }));
+        // the transport drops the client's receiver when the connection ends: later sends to it fail
+        let (_s, dead_rx): (Sender<String>, Receiver<String>) = channel(1);
+        let _old = std::mem::replace(&mut self.sessions[sid].1, dead_rx);
         match r {
             Ok(_) => "Left".to_string(),
             Err(_) => "PANIC".to_string(),
         }
+    }
+}
+
+/// a poisoned lock makes the dump itself panic: report that instead of dying
+pub fn safe_dump(node: &Node, with_addr: bool) -> String {
+    match std::panic::catch_unwind(std::panic::AssertUnwindSafe(|| node.dump(with_addr))) {
+        Ok(s) => s,
+        Err(_) => "POISONED".to_string(),
     }
 }
 
@@ -310,7 +321,7 @@ pub fn run(path: &str, workdir: &str) {
             let inb = node.inboxes_record(&mut notices);
             let q = node.queues();
             out.line(&format!("{} | {} | {}", res, inb, q));
-            out.line(&format!("D {}", node.dump(false)));
+            out.line(&format!("D {}", safe_dump(&node, false)));
         }
         out.line("E");
     }
